@@ -6,6 +6,8 @@
 //!                                      hangs), `case` copied through.
 mod sinks;
 mod tfb;
+mod bbi;
+mod refuse;
 
 use serde_json::{json, Value};
 use std::io::{BufRead, BufReader, Write};
@@ -16,12 +18,24 @@ fn run_cases(inp: &str, outp: &str, f: CaseFn) {
     let rd = BufReader::new(std::fs::File::open(inp).expect("open input"));
     let mut out = std::fs::OpenOptions::new().append(true).create(true).open(outp).expect("open output");
     std::panic::set_hook(Box::new(|_| {})); // panics of the code under test are data, not noise
+    // fail fast on a badly broken tree: after VH_MAX_FAIL cases that the sub-command marked
+    // "fail" (hang of a helper thread, panic ...) the remaining cases are skipped, not run
+    let max_fail: usize = std::env::var("VH_MAX_FAIL").ok().and_then(|s| s.parse().ok()).unwrap_or(12);
+    let mut fails = 0usize;
     for line in rd.lines() {
         let line = line.expect("read");
         if line.trim().is_empty() {
             continue;
         }
         let case: Value = serde_json::from_str(&line).expect("json");
+        if fails >= max_fail {
+            let mut o = case.clone();
+            o["obs"] = json!({"result": "skipped"});
+            let mut s = serde_json::to_string(&o).unwrap();
+            s.push('\n');
+            out.write_all(s.as_bytes()).unwrap();
+            continue;
+        }
         let res = std::panic::catch_unwind(std::panic::AssertUnwindSafe(|| f(&case)));
         let obs = match res {
             Ok(v) => v,
@@ -36,6 +50,9 @@ fn run_cases(inp: &str, outp: &str, f: CaseFn) {
                 json!({"result": "panic", "err": msg})
             }
         };
+        if obs["fail"].as_bool().unwrap_or(false) || obs["result"] == "panic" {
+            fails += 1;
+        }
         let mut o = case.clone();
         o["obs"] = obs;
         let mut s = serde_json::to_string(&o).unwrap();
@@ -54,6 +71,8 @@ fn main() {
     let f: CaseFn = match args[1].as_str() {
         "tfb" => tfb::run_case,
         "tfb_threads" => tfb::run_threaded_case,
+        "bbi" => bbi::run_case,
+        "refuse" => refuse::run_case,
         other => {
             eprintln!("unknown subcommand {}", other);
             std::process::exit(2);
